@@ -414,10 +414,11 @@ def c11_illegal(col, rng):
 def c15_setup_fed_by_argument(col, rng, jobref=None):
     """C15's side of the same rule: IF a DAG whose setup node uses a DAG argument can be built at all, its second call must still
     be computed from the second call's argument (a setup result computed from the first call's argument would leak into it)."""
-    pid = "C15"
+    pid = (jobref or {}).get("pid", "C15")
     for variant, sp in illegal_setup_variants(rng, deps=("dag_arg",)):
         col.evaluations += 1
-        plain = {name: probes.mkprobe(name, shape=None, setup=bool(fs.get("setup"))) for name, fs in sp["fns"].items()}
+        # (plain probes also for the setup functions: values are the reference's terms)
+        plain = {name: probes.mkprobe(name, shape=None) for name, fs in sp["fns"].items()}
         try:
             d, _e, _p = S.build_tawazi(sp, plain=plain)
         except BaseException as e:  # noqa: BLE001
@@ -427,18 +428,26 @@ def c15_setup_fed_by_argument(col, rng, jobref=None):
             continue
         col.counters["c15_dags_with_argument_fed_setup_node_built"] += 1
         rp = {"kind": "rerun_job", "job": dict(jobref or {}), "variant": variant, "source": S.render(sp)}
+        # two arguments of different truthiness (the argument may be the setup node's activation flag)
+        k1 = next(k for k in range(1, 50) if not bool(Sym("arg", "leak", k)))
+        k2 = next(k for k in range(1, 50) if bool(Sym("arg", "leak", k)))
+        if rng.random() < 0.5:
+            k1, k2 = k2, k1
         outs = []
-        for k in (1, 2):
+        for k in (k1, k2):
             B.reset_log()
             r = probes.run_op("call", lambda k=k: op_call(d, [Sym("arg", "leak", k)]))
             outs.append((r, [(e["node"], e["args"], e["kwargs"]) for e in B.snapshot() if e["kind"] == "FENTER"]))
         seen_first = [x for (_n, a, kw) in outs[1][1] for x in list(a) + list(kw.values())
-                      if isinstance(x, Sym) and mentions(x, lambda q: q == ("arg", "leak", 1))]
+                      if isinstance(x, Sym) and mentions(x, lambda q: q == ("arg", "leak", k1))]
         r2 = outs[1][0]
-        leaked = (r2[0] == "ok" and mentions(r2[1], lambda q: q == ("arg", "leak", 1))) or bool(seen_first)
-        if leaked:
+        ref2 = S.run_reference(sp, [Sym("arg", "leak", k2)], plain)
+        leaked = (r2[0] == "ok" and mentions(r2[1], lambda q: q == ("arg", "leak", k1))) or bool(seen_first)
+        differs = r2[0] == "ok" and ref2[0] == "ok" and not same(ref2[1].result, r2[1])
+        if leaked or differs:
             col.violation(pid, "later_call_computed_from_an_earlier_calls_argument(setup node fed by a DAG argument: %s)" % variant,
-                          dict(second_call=short(r2[1] if r2[0] == "ok" else r2, 300), source=S.render(sp)), rp)
+                          dict(second_call=short(r2[1] if r2[0] == "ok" else r2, 300), plain_python=short(ref2[1].result, 300) if ref2[0] == "ok" else None,
+                               source=S.render(sp)), rp)
 
 
 def c11_illegal_through_operators(col, k):
@@ -824,6 +833,11 @@ def c15_history(col, rng, hidx, jobref=None):
 def job_hist15(j):
     rng = random.Random(j["seed"])
     col = Collector()
+    if j.get("leak_only"):
+        # only the clause about setup nodes fed by a DAG argument (re-used by other properties' checks)
+        for _ in range(j["n_histories"]):
+            c15_setup_fed_by_argument(col, rng, jobref=j)
+        return col.result()
     for h in range(j["n_histories"]):
         c15_history(col, rng, h, jobref=j)
     c15_setup_fed_by_argument(col, rng, jobref=j)
